@@ -151,7 +151,7 @@ CHECKS["C12"] = {
     "design_ref": "DESIGN.md section 5 C12",
     "technique": "offline refinement-invariance checker over a recorded event log + "
                  "runtime exact-rational post-condition on every "
-                 "chord.weighted_accuracy call",
+                 "chord.weighted_accuracy and chord.directional_hamming_distance call",
     "text": "Every recorded (annotation, refinement) pair gave equal chord.evaluate, "
             "frame-based segment and L-measure scores; every observed "
             "weighted_accuracy call (incl. those made by chord.evaluate) equalled "
@@ -217,7 +217,9 @@ CHECKS["C18"] = {
     "design_ref": "DESIGN.md section 5 C18",
     "technique": "runtime post-conditions on multipitch.metrics / evaluate / "
                  "compute_num_true_positives / compute_accuracy / "
-                 "compute_err_score / resample_multipitch",
+                 "compute_err_score / resample_multipitch, incl. that metrics() resamples "
+                 "the caller's estimate onto the reference times whenever the time "
+                 "bases differ",
     "text": "Every observed multipitch result satisfied E_tot = E_sub + E_miss + "
             "E_fa, non-negative errors, accuracy <= min(P, R) (raw and chroma), "
             "per-frame TP <= min(#ref, #est), chroma TP >= raw TP, and every "
@@ -230,7 +232,8 @@ CHECKS["C19"] = {
     "technique": "runtime post-conditions on the inner BSS-eval functions "
                  "(decomposition sum, permutation optimality from captured SIR "
                  "matrices), client-boundary relations (scaling, reordering, "
-                 "framewise vs direct), np.empty poisoning",
+                 "no-permutation scores, 1-d single source, framewise vs direct incl. the "
+                 "single-window branch), np.empty poisoning",
     "text": "For every generated source set: decomposition components summed to "
             "the estimate, the permutation was an optimal permutation and followed "
             "a reordering of the estimates, bss_eval_sources metrics were scale "
@@ -244,7 +247,8 @@ CHECKS["C19"] = {
 CHECKS["C20"] = {
     "design_ref": "DESIGN.md section 5 C20",
     "technique": "runtime round-trip monitor at the client boundary of every "
-                 "mir_eval.io loader (own writer, temp path and StringIO), "
+                 "mir_eval.io loader (own writer; temp path, StringIO and duck-typed "
+                 "file object), "
                  "single-fault corruptions, shim on io.load_delimited",
     "text": "Every generated annotation file (10 formats, 6 delimiter styles, "
             "comment lines, repr floats incl. denormals/exponents, Unicode labels "
